@@ -1553,29 +1553,81 @@ def r114(ctx, repo, setitem, mc, ml):
                + "; ".join(problems), node=lf,
                key=f"{CONF}::load_from_file::[{sec}] {key} = {val}")
 
-    # export carries all metadata sections + user
+    # export carries all metadata sections + user: the statements of
+    # Export.hdf5 that build the mapping handed to store_metadata are
+    # interpreted on a model dataset (for-loop, comprehension, ... alike)
     ex = repo.func(EXP, "Export.hdf5")
-    lp = [n for n in walk(ex) if isinstance(n, ast.For)
-          and txt(n.iter).endswith("CFG_METADATA")]
-    ok = bool(lp) and any(isinstance(s, ast.Assign) and isinstance(
-        s.targets[0], ast.Subscript) and txt(s.targets[0].slice) == txt(
-        lp[0].target) for s in walk(lp[0]))
-    ctx.ob("R11.4", ok, "export copies every CFG_METADATA section of the "
-           "dataset" if ok else "export no longer iterates CFG_METADATA",
-           node=lp[0] if lp else ex, label="export all metadata sections")
-    us = [n for n in walk(ex) if isinstance(n, ast.Assign) and isinstance(
-        n.targets[0], ast.Subscript) and const_str(
-        n.targets[0].slice) == "user" and "user" in txt(n.value)]
-    ctx.ob("R11.4", bool(us), "export carries the user section" if us else
-           "export drops user-defined metadata", node=us[0] if us else ex,
-           label="export user section")
-    st = [c for c in find_calls(ex, attr="store_metadata")]
-    ok = bool(st) and st[0].args and isinstance(st[0].args[0], ast.Name) \
-        and us and txt(us[0].targets[0].value) == st[0].args[0].id
-    ctx.ob("R11.4", bool(ok), "the collected metadata are handed to "
-           "store_metadata" if ok else "export does not store the collected "
-           "metadata", node=st[0] if st else ex, label="export stores meta",
-           nontrivial=False)
+    st = [c for c in find_calls(ex, attr="store_metadata", nested=False)]
+    if len(st) != 1 or not st[0].args or not isinstance(
+            st[0].args[0], ast.Name):
+        raise AnalysisError("Export.hdf5: store_metadata(<name>) call lost")
+    mname = st[0].args[0].id
+    top = st[0]
+    while top.parent is not ex:
+        top = top.parent
+    sl = [x for x in ex.body[:ex.body.index(top)]
+          if mname in names_in(x)]
+    if not sl:
+        raise AnalysisError(f"Export.hdf5: no statement builds `{mname}`")
+    meta_secs = list(mc.CFG_METADATA)
+    ana_secs = list(mc.CFG_ANALYSIS)
+    present = [x for x in meta_secs if x != "imaging"][:4] + ["experiment"]
+    interp = Interp()
+    for filtered in (False, True):
+        config = {sec: {"some key": 1.0} for sec in dict.fromkeys(present)}
+        config["user"] = {"my key": "x"}
+        for sec in ana_secs:
+            config[sec] = {"k": 1}
+        ds = Namespace("ds", config=config,
+                       get_measurement_identifier=lambda: "mid",
+                       features_innate=[], features=[],
+                       filter=Namespace("filter", all=[True, False]))
+        loc = {"ds": ds, "self": Namespace("self", rtdc_ds=ds),
+               "filtered": filtered, "features": None}
+        g = {"dfn": Namespace("dfn", CFG_METADATA=mc.CFG_METADATA,
+                              CFG_ANALYSIS=mc.CFG_ANALYSIS,
+                              config_keys=mc.config_keys),
+             "uuid": Namespace("uuid", uuid4=lambda: "0123-4567")}
+        how = "filtered" if filtered else "unfiltered"
+        problems = []
+        try:
+            interp.steps = 0
+            interp.block(sl, loc, g, None)
+            meta = loc.get(mname)
+        except ModelRaise as e:
+            raise AnalysisError(
+                f"Export.hdf5: the statements building `{mname}` raise {e} "
+                "on the model dataset (not modelled)")
+        if meta is not None:
+            if not isinstance(meta, dict):
+                problems.append(f"`{mname}` is {type(meta).__name__}")
+            else:
+                want = sorted(set(present))
+                got = sorted(k for k in meta if k != "user")
+                if got != want:
+                    problems.append(
+                        f"sections {got} are exported, the dataset has the "
+                        f"metadata sections {want} (analysis sections must "
+                        "stay out)")
+                for k in want:
+                    if k in meta and meta[k] is config[k]:
+                        problems.append(
+                            f"section {k} is handed over without a copy "
+                            "(later edits change the dataset's own "
+                            "configuration)")
+                        break
+                if filtered and config["experiment"] != {"some key": 1.0}:
+                    problems.append("the filtered export edits the "
+                                    "dataset's own [experiment] section")
+        ctx.ob("R11.4", not problems, f"{how} export hands every metadata "
+               "section of the dataset (as a copy) to store_metadata"
+               if not problems else f"{how} export: " + "; ".join(problems),
+               node=sl[0], key=f"{EXP}::Export.hdf5::export all metadata "
+               f"sections ({how})")
+        ok = isinstance(meta, dict) and meta.get("user") == {"my key": "x"}
+        ctx.ob("R11.4", ok, f"{how} export carries the user section" if ok
+               else f"{how} export drops user-defined metadata", node=sl[0],
+               key=f"{EXP}::Export.hdf5::export user section ({how})")
 
 
 def _ancestors(n):
@@ -2154,4 +2206,33 @@ TWINS = list(TWINS) + [
     ("description reworded without changing the unit", MC,
      ('"Target measurement duration [min]"',
       '"Target duration of the measurement [min]"')),
+]
+
+# round-2 refactoring of Export.hdf5 (reduced): comprehension instead of
+# the for/if loop, the two `if filtered:` blocks merged
+TWINS = list(TWINS) + [
+    ("export collects the metadata with a dict comprehension", EXP,
+     [('        meta = {}\n'
+       '        # only cfg metadata (no analysis metadata)\n'
+       '        for sec in dfn.CFG_METADATA:\n'
+       '            if sec in ds.config:\n'
+       '                meta[sec] = ds.config[sec].copy()\n',
+       '        meta = {sec: ds.config[sec].copy()\n'
+       '                for sec in dfn.CFG_METADATA if sec in ds.config}\n'),
+      ('            meta["experiment"]["run identifier"] = '
+       'f"{ds_run_id}-{random_ap}"\n\n'
+       '        if filtered:\n'
+       '            filter_arr = ds.filter.all\n',
+       '            meta["experiment"]["run identifier"] = '
+       'f"{ds_run_id}-{random_ap}"\n'
+       '            filter_arr = ds.filter.all\n')]),
+]
+MUTANTS = list(MUTANTS) + [
+    ("export hands the sections over without a copy", EXP,
+     ("                meta[sec] = ds.config[sec].copy()",
+      "                meta[sec] = ds.config[sec]"), "R11.4"),
+    ("export also copies the analysis sections", EXP,
+     ("        for sec in dfn.CFG_METADATA:\n            if sec in ds.config:",
+      "        for sec in dfn.config_keys:\n            if sec in ds.config:"),
+     "R11.4"),
 ]
